@@ -330,6 +330,15 @@ func (ts *TermStore) Ite(c, a, b *Term) *Term {
 	if a.Sort != b.Sort {
 		panic(fmt.Sprintf("Ite sort mismatch %v %v", a.Sort, b.Sort))
 	}
+	if a.Op == OIte && a.A[0] == c {
+		a = a.A[1]
+	}
+	if b.Op == OIte && b.A[0] == c {
+		b = b.A[2]
+	}
+	if a == b {
+		return a
+	}
 	if a.Sort.K == SBool {
 		if a.IsTrue() && b.IsFalse() {
 			return c
@@ -438,6 +447,13 @@ func (ts *TermStore) Bin(op Op, a, b *Term) *Term {
 		}
 		return ts.BVConst(int(w), r)
 	}
+	// lift over (ite c k1 k2) with constant branches when the other operand is constant
+	if a.Op == OIte && b.IsConst() && a.A[1].IsConst() && a.A[2].IsConst() {
+		return ts.Ite(a.A[0], ts.Bin(op, a.A[1], b), ts.Bin(op, a.A[2], b))
+	}
+	if b.Op == OIte && a.IsConst() && b.A[1].IsConst() && b.A[2].IsConst() {
+		return ts.Ite(b.A[0], ts.Bin(op, a, b.A[1]), ts.Bin(op, a, b.A[2]))
+	}
 	// identities
 	switch op {
 	case OAdd, OBOr, OBXor:
@@ -502,6 +518,12 @@ func (ts *TermStore) Cmp(op Op, a, b *Term) *Term {
 	}
 	if a == b {
 		return ts.Bool(op == OULe || op == OSLe)
+	}
+	if a.Op == OIte && b.IsConst() && a.A[1].IsConst() && a.A[2].IsConst() {
+		return ts.Ite(a.A[0], ts.Cmp(op, a.A[1], b), ts.Cmp(op, a.A[2], b))
+	}
+	if b.Op == OIte && a.IsConst() && b.A[1].IsConst() && b.A[2].IsConst() {
+		return ts.Ite(b.A[0], ts.Cmp(op, a, b.A[1]), ts.Cmp(op, a, b.A[2]))
 	}
 	return ts.mk(op, BoolSort, a, b, nil, 0, 0, "")
 }
